@@ -1,0 +1,44 @@
+//go:build verif
+
+package cfg
+
+// Contracts for the verification harness under /verif (comment-only file).
+//
+// C18 / C13: field selector parsing never indexes out of range, for every selector.
+
+//@ func ParseFieldSelector
+
+// ParseNestedFields: a path is dropped exactly when an earlier (not longer) path is
+// an element-wise prefix of it; prefix(short, long) is the uninterpreted outcome
+// of slices.Equal(short, long[:len(short)]) - so "listing a path and a descendant is
+// the same as listing the path alone", and dotted key names are compared as path
+// elements, never as joined strings.  sort.Slice is trusted to order by the length
+// comparator (closure verified below).
+
+//@ func ParseNestedFields
+//@   ghost lastEq bool = false
+//@   loop 1 invariant true
+//@   loop 2 invariant !sameblock(result, paths) && rangeindex#2 < len(paths) && (forall a, b :: 0 <= a && a < b && b < len(paths) ==> len(paths[a]) <= len(paths[b]))
+//@   loop 3 invariant !sameblock(result, paths) && rangeindex#3 < i && i == rangeindex#2 && i < len(paths) && ok && longPath == paths[i]
+//@   loop 3 invariant forall a, b :: 0 <= a && a < b && b < len(paths) ==> len(paths[a]) <= len(paths[b])
+//@   loop 3 invariant forall k :: 0 <= k && k <= rangeindex#3 ==> !up_prefix(paths[k], longPath)
+//@   assert at "ok = false" up_prefix(shortPath, longPath)
+//@   assert at "result = append(result, longPath)" forall k :: 0 <= k && k < i ==> !up_prefix(paths[k], longPath)
+//@   callee ParseFieldSelector(s)
+//@     pure
+//@   callee Slice(x, less)
+//@     modifies paths
+//@     ensures forall a, b :: 0 <= a && a < b && b < len(paths) ==> len(paths[a]) <= len(paths[b])
+//@   callee Equal(a, b) (r)
+//@     requires a == shortPath && sameblock(b, longPath) && off(b) == off(longPath) && len(b) == len(shortPath)
+//@     pure
+//@     ensures r == up_prefix(a, longPath)
+//@   callee Join(e, sep)
+//@     pure
+//@   callee Warnf(f, a)
+//@     pure
+
+//@ func ParseNestedFields$1
+//@   pure
+//@   requires 0 <= i && i < len(paths) && 0 <= j && j < len(paths)
+//@   ensures result == (len(paths[i]) < len(paths[j]))
